@@ -394,7 +394,23 @@ class ActionEval:
             self.used_models.add('format!')
             return ret(('format', vals[0]))
         if re.search(r'<.* as FromStr>::from_str$|str::<impl str>::parse::<', n):
-            return ret(('parse', vals[0]))
+            mt = re.search(r'parse::<(\w+)>', n)
+            return ret(('parse', vals[0], mt.group(1) if mt else '?'))
+        if re.search(r'Result::<.*>::(expect|unwrap)$', n):
+            r0 = vals[0]
+            if isinstance(r0, tuple) and r0[0] == 'parse':
+                # the Err arm panics: recorded with its condition, the Ok arm continues with the parsed value
+                self.panics.append(([('parse_ok', r0, False)], 'Result::%s on %s' % (last, 'str::parse')))
+                return [([('parse_ok', r0, True)], ('downcast', r0, 'Ok', 0), {})]
+            raise Unsupported('Result::%s on %s' % (last, r0[0] if isinstance(r0, tuple) else r0))
+        if re.search(r'Option::<.*>::(expect|unwrap)$', n):
+            o = vals[0]
+            if isinstance(o, tuple) and o[0] == 'some':
+                return ret(o[1])
+            if isinstance(o, tuple) and o[0] == 'none':
+                self.panics.append(([], 'Option::%s on None' % last))
+                return []
+            raise Unsupported('Option::%s on a symbolic option' % last)
         m = re.search(r'(?:core|std|alloc)::str::<impl str>::(\w+)(?:::<.*>)?$|^String::(\w+)$|(?:core|alloc|std)::string::String::(\w+)$', n) or re.search(r'str::<impl str>::(\w+)(?:::<.*>)?$', n)
         if m:
             # any other text operation: kept as an explicit transformation (mirror obligation M2 rejects it unless the statement allows it)
